@@ -187,6 +187,11 @@ impl<'a> FileLoader<'a> {
         // The include handler may resolve the same name differently depending on the file it was included from
         let key = (file_name.to_string(), parent_name);
 
+        #[cfg(rssl_verif)]
+        if self.file_name_remap.contains_key(&key) {
+            rssl_text::verif::probe("preprocess::include_cache_hit", 1, 0);
+        }
+
         let id = match self.file_name_remap.get(&key) {
             Some(id) => *id,
             None => {
@@ -212,6 +217,11 @@ impl<'a> FileLoader<'a> {
                 id
             }
         };
+
+        #[cfg(rssl_verif)]
+        if self.pragma_once_files.contains(&id) {
+            rssl_text::verif::probe("preprocess::pragma_once_skip", 1, 0);
+        }
 
         if self.pragma_once_files.contains(&id) {
             Ok(InputFile {
@@ -681,6 +691,9 @@ fn apply_single_macro(
 
             // Combine the strings
             let new_fragment = format!("{left_string}{right_string}");
+
+            #[cfg(rssl_verif)]
+            rssl_text::verif::probe("preprocess::scratch_file", 1, 0);
 
             // Register the combined string as a file
             let file_id =
